@@ -191,9 +191,77 @@ def inventory(ctx, lib, inv):
         ctx.note("hash-iteration inventory (not armed): %(function)s %(call)s at %(site)s -> %(class)s" % r)
 
 
+COMMIT_CALLS = ("onceo", "condu", "conda", "Condu::from_conjunctions", "Conda::from_conjunctions", "Solver::trunc", "matchu", "matcha")
+SEQ_ADAPTORS = ("collect", "from_iter", "into_iter", "iter", "cloned", "copied", "map", "to_vec", "rev", "extend", "chain", "filter", "skip", "take")
+SORTERS = ("sort", "sort_unstable", "sort_by", "sort_by_key", "sort_unstable_by", "sort_unstable_by_key", "sort_by_cached_key")
+
+
+def check_hash_order_commit(ctx, lib, rule):
+    """A committed-choice goal keeps the *first* solution of its body; if the body is built from a
+    sequence whose order is the iteration order of a HashMap / HashSet (randomly seeded per process)
+    the kept solution differs between runs.  So no sequence drawn from a hash container may reach a
+    committed-choice constructor unless it was sorted first."""
+    ev = sym.Evaluator(lib, named_lets=True, inline=lambda p, f: False)
+    sites = 0
+    for p, fn in sorted(lib.fns.items()):
+        if "hir" not in fn or fn.get("in_test_mod"):
+            continue
+        t = ev.fn_term(fn)
+        commits = [c for c in sym.subterms(t) if c[0] == "call" and any(suffix_match(c[1], x) for x in COMMIT_CALLS)]
+        if not commits:
+            continue
+        sorted_ids = set()
+        for c in sym.subterms(t):
+            if c[0] == "call" and c[1].split("::")[-1] in SORTERS and c[2] and c[2][0][0] == "letv":
+                sorted_ids.add(c[2][0][1])
+
+        def find_hash_seq(x, depth=0):
+            """First hash-container iteration that reaches `x` as a sequence, not looking through a
+            local that has been sorted."""
+            if not isinstance(x, tuple) or not x or depth > 40:
+                return None
+            if isinstance(x[0], str):
+                if x[0] == "letv":
+                    if x[1] in sorted_ids:
+                        return None
+                    return find_hash_seq(x[3], depth + 1)
+                if x[0] == "call" and x[2]:
+                    name = x[1].split("::")[-1]
+                    if ("HashMap" in x[1] or "HashSet" in x[1] or "hash_map" in x[1] or "hash_set" in x[1]) and name in HASH_ITER:
+                        return x
+                if x[0] == "closure":
+                    return find_hash_seq(x[3], depth + 1)
+                kids = x[1:]
+            else:
+                kids = x
+            for k in kids:
+                if isinstance(k, tuple):
+                    h = find_hash_seq(k, depth + 1)
+                    if h is not None:
+                        return h
+            return None
+
+        for c in list(dict.fromkeys(commits)):
+            sites += 1
+            hit = None
+            for a in c[2]:
+                h = find_hash_seq(a)
+                if h is not None:
+                    hit = (a, h)
+                    break
+            key = "%s|commit=%s" % (p, c[1].split("::")[-1])
+            ctx.fn_seen(p)
+            if hit:
+                ctx.violation(rule, key, site_of(fn), "a committed-choice goal (%s) is built from a sequence in hash-iteration order (%s): which solution it keeps differs from run to run" % (c[1].split("::")[-1], show(hit[1], maxdepth=3)[:100]))
+            else:
+                ctx.ok(rule, key, site_of(fn), "no hash-ordered sequence reaches it")
+    ctx.floor(rule, sites, 3, "committed-choice construction sites")
+
+
 def run(ctx, fb, cfg):
     lib = fb.lib
     R = "C09."
+    check_hash_order_commit(ctx, lib, R + "K1.hash-order-into-committed-choice")
     check_fused(ctx, lib, R + "K6.fused")
     check_lazy(ctx, lib, R + "K1K6.lazy")
     inv = check_foreign(ctx, lib, R + "K1.no-foreign-nondeterminism")
